@@ -21,6 +21,8 @@ fn main() {
     std::env::set_var("NO_PROXY", "*");
     std::env::set_var("no_proxy", "*");
     let ctx = vmc::report::Ctx::from_args();
+    // an application with logging enabled: every log statement's arguments are evaluated (and discarded)
+    vmc::install_logger(log::LevelFilter::Trace);
     // own the system trust store: an empty one. Loading the real bundle costs ~55 ms of CPU per client
     // construction (the library builds a fresh TLS connector per send) and contends badly across threads;
     // no property depends on system roots, and the test CA must never be trusted implicitly anyway.
